@@ -1512,6 +1512,13 @@ package server
 //@   ensures C15.undo.kept,C11.undo.kept: result == (isnil(self.aofData) && self.currentData == nil && self.commandDatas == nil)
 //@   modifies nothing
 
+// C10: a database created on first use takes the node's role (NewLockDB copies slock.state) inside the critical section of the
+// server lock in which it is registered: a role change holds that lock and updates the registered databases, so a database built
+// outside the section and registered afterwards can keep the role the node has just given up
+//@ func (*SLock).GetOrNewDB
+//@   inline
+//@   at call NewLockDB assert C10.newdb.role-under-lock: calls(Mutex.Lock) >= calls(Mutex.Unlock) + 1
+
 // C11/C10: a leader that steps down (whatever its server state says by then: the arbiter's voluntary resignation flips the state
 // first) goes on to fail its pending require-ack holds; only a node that is already following that very address returns early
 //@ func (*ReplicationManager).SwitchToFollower
